@@ -101,8 +101,8 @@ REGISTRY.update({
                  "operation and a containment / at-most-one-pixel post-condition after the operation it concerns; an exhaustive table of awkward "
                  "decimals x multipliers covers the constructor and each setter. Exploration over histories is the right level: the state space "
                  "(real-valued ranges) is infinite, but inexact quotients are reached by construction in > 30 % of histories.",
-        "technique": "model-based / stateful property testing (generated operation histories, invariant after every step) + exhaustive decimal table",
-        "note": _NOTE + "Fits mix integer arrays / nested int lists with float diagrams. Resolution kept <= 200 per axis (cost bound); histories are JSON op lists interpreted step by step rather than a Hypothesis RuleBasedStateMachine so that the replay file is the history itself.",
+        "technique": "model-based / stateful property testing (generated operation histories and a Hypothesis RuleBasedStateMachine with state-dependent rule arguments; invariant after every step) + exhaustive decimal table",
+        "note": _NOTE + "Fits mix integer arrays / nested int lists with float diagrams. Resolution kept <= 200 per axis (cost bound); histories are JSON op lists interpreted step by step so that the replay file is the history itself; the RuleBasedStateMachine clause records its run in the same format.",
     },
 })
 
@@ -163,7 +163,7 @@ REGISTRY.update({
         "level": "Model-based histories of fit / transform / fit_transform calls on data of different extent for both estimators, against a model that "
                  "remembers only user-fixed parameters and the most recent fit: learned state after each fit, outputs of each transform (exactly, on the "
                  "grid the model predicts), repeatability, state preservation, element-wise collections, fit_transform == fit;transform.",
-        "technique": "model-based / stateful property testing (generated call histories with a reference model)",
+        "technique": "model-based / stateful property testing (generated call histories and a Hypothesis RuleBasedStateMachine, both judged against a reference model)",
         "note": _NOTE + "User-fixed parameters are those given to the constructor or assigned afterwards (attribute assignment / set_params between fits and transforms, values off the data lattice so that they cannot coincide with a learned bound).",
     },
 })
